@@ -26,9 +26,12 @@ deriving Repr, Inhabited, DecidableEq
 
 def ratAbs (q : Rat) : Rat := if q < 0 then -q else q
 
-/-- `levels.diff().fillna(0).abs().cumsum().astype(int)`; a missing value (NaN) makes the
-    differences next to it NaN, which `fillna(0)` turns into "no change" -/
-def enumChangesGo (acc : Rat) (prev : Option Rat) : List (Option Rat) → List Int
+/-- `enumerate_changes` as it was before the repair proposed in
+    `proposed_fixes/C14-fractional-levels-merged.diff`:
+    `levels.diff().fillna(0).abs().cumsum().astype(int)` -- the SIZES of the changes are accumulated and the
+    sum is truncated, so levels less than 1 apart (a weighted-median cn of 5.5 next to 5) share a key.
+    Kept for `Props/C14.lean: enumerate_changes_prefix_counterexample`. -/
+def enumChangesPrefixGo (acc : Rat) (prev : Option Rat) : List (Option Rat) → List Int
   | [] => []
   | x :: xs =>
     let d : Rat := match prev, x with
@@ -36,7 +39,22 @@ def enumChangesGo (acc : Rat) (prev : Option Rat) : List (Option Rat) → List I
       | _, _ => 0
     let acc' := acc + d
     -- astype(int): truncation toward zero of a non-negative number = floor
-    acc'.floor :: enumChangesGo acc' x xs
+    acc'.floor :: enumChangesPrefixGo acc' x xs
+
+def enumChangesPrefix : List (Option Rat) → List Int
+  | [] => []
+  | x :: xs => 0 :: enumChangesPrefixGo 0 x xs
+
+/-- `enumerate_changes` (repaired): `levels.diff().fillna(0).ne(0).cumsum()` -- the running COUNT of the
+    changes; a missing value (NaN) makes the differences next to it NaN, which `fillna(0)` turns into
+    "no change" -/
+def enumChangesGo (acc : Int) (prev : Option Rat) : List (Option Rat) → List Int
+  | [] => []
+  | x :: xs =>
+    let d : Int := match prev, x with
+      | some a, some b => if a = b then 0 else 1
+      | _, _ => 0
+    (acc + d) :: enumChangesGo (acc + d) x xs
 
 def enumChanges : List (Option Rat) → List Int
   | [] => []
@@ -105,10 +123,14 @@ def levelCi (r : Seg) : Option Rat :=
   let hi := r.ciHi.getD 0
   some (if hi < 0 then -1 else if lo > 0 then 1 else 0)
 
-/-- `sem`: log2 ± zscore·sem, zscore read from the source -/
+/-- `sem`: log2 ± zscore·sem, zscore read from the source (round 4: a missing sem gives the neutral level, as numpy's
+    comparisons with NaN do; before, the model read it as sem = 0) -/
 def levelSem (r : Seg) : Option Rat :=
-  let m := r.sem.getD 0 * Generated.SEM_ZSCORE
-  some (if r.log2 + m < 0 then -1 else if r.log2 - m > 0 then 1 else 0)
+  match r.sem with
+  | none => some 0     -- a missing sem (NaN): both comparisons `log2 ± NaN ≷ 0` are False, the row stays neutral
+  | some s =>
+    let m := s * Generated.SEM_ZSCORE
+    some (if r.log2 + m < 0 then -1 else if r.log2 - m > 0 then 1 else 0)
 
 /-- `ampdel`: −1 for cn = 0, +1 for cn ≥ 5 (cut-offs read from the source), else 0 -/
 def levelAmpdel (r : Seg) : Option Rat :=
@@ -155,5 +177,22 @@ def fullLevel (hasCn1 : Bool) (f : Seg → Option Rat) (r : Seg) : Option Rat ×
 
 def specSquash (hasCn1 : Bool) (f : Seg → Option Rat) (t : List Seg) : List Seg :=
   (splitRuns (fullLevel hasCn1 f) t).filterMap squashRegion
+
+/-- what `ampdel` makes of one group: nothing when its first row is neutral, the squashed run otherwise -/
+def ampdelPick (g' : List Seg) : Option Seg :=
+  match g' with
+  | [] => none
+  | x :: _ => if levelAmpdel x == some 0 then none else squashRegion g'
+
+/-- a run `ampdel` keeps: its first (hence every) member is deleted or amplified -/
+def ampdelKeep (g : List Seg) : Bool :=
+  match g with
+  | [] => false
+  | x :: _ => levelAmpdel x != some 0
+
+/-- the run-based wording of `ampdel`: the maximal runs of equal amplified / deleted / neutral status (and equal
+    allele-specific copy numbers), the neutral ones dropped, each of the others squashed to one row -/
+def specAmpdel (h : Bool) (t : List Seg) : List Seg :=
+  ((splitRuns (fullLevel h levelAmpdel) t).filter ampdelKeep).filterMap squashRegion
 
 end CnvVerif
